@@ -3,7 +3,7 @@ from engines.arena_prop import run_arena_property
 
 def run(ctx):
     return run_arena_property(ctx, ["BumpProof.Props.C13", "BumpProof.Props.Hist2@C13", "BumpProof.Props.Targets@C13"],
-        runs_quick=[('realloc', 200, 100)],
+        runs_quick=[('realloc', 700, 100)],
         runs_thorough=[('realloc', 8000, 200), ('general', 2000, 200)],
         fields=(0, 2, 3), extra_oracles=(),
         note='reclaim / opt-out theorems on the model + correspondence + same-address / allocated-monotonicity oracles on the implementation')
